@@ -520,13 +520,13 @@ static void runMergeTask(W& w, const MergeTask& t, char oracle)
 
 // ---------------------------------------------------------------------------------------------
 // C17 alphabet (state-relative)
-constexpr int SYM_PER_EP = 24;
+constexpr int SYM_PER_EP = 27;
 // endpoint D takes part with a reduced symbol set {U, F, I, L, payload-type 0}
 constexpr int ND = 5;
 static const int kDKinds[ND] = {0, 2, 5, 6, 12};
 constexpr int EPLESS = 3 * SYM_PER_EP + ND;   // first endpoint-less symbol
 constexpr int NSYM = EPLESS + 3;
-static const char* kSymName[SYM_PER_EP] = {"U", "UU", "F", "Ft", "F2", "I", "L", "Ib", "Lb", "Lv", "Lt", "It", "Z", "E", "O", "H", "UF", "P", "UI", "UL", "P1", "T0", "L0", "Z0"};
+static const char* kSymName[SYM_PER_EP] = {"U", "UU", "F", "Ft", "F2", "I", "L", "Ib", "Lb", "Lv", "Lt", "It", "Z", "E", "O", "H", "UF", "P", "UI", "UL", "P1", "T0", "L0", "Z0", "Id", "Ld", "Ld0"};
 
 static std::string symName(int sym)
 {
@@ -665,6 +665,11 @@ static Bytes symbolFrame(int sym, const ref::ReassemblyModel& m, bool& isNull, i
             f.resize(f.size() + 300, 0x01);
             return f;
         }
+        // continuation segments that fit the state of a DEFAULT-CONSTRUCTED reassembly entry or header (version 1, message type 0,
+        // counter 0 + 1): on an endpoint without an open message they are orphans like any other, whatever a lookup inserts on the way
+        case 24: fh.seq = 1; fh.version = 1; fh.msgType = 0; return ref::buildFrame(fh, {seg(ref::SEG_MID, 5, 25)});
+        case 25: fh.seq = 1; fh.version = 1; fh.msgType = 0; return ref::buildFrame(fh, {seg(ref::SEG_LAST, 5, 26)});
+        case 26: fh.seq = 1; fh.version = 1; fh.msgType = 0; return ref::buildFrame(fh, {seg(ref::SEG_LAST, 0, 27)});
         case 18: fh.seq = next; fh.version = over; fh.msgType = otyp; return ref::buildFrame(fh, {seg(0, 2, 20), seg(ref::SEG_MID, 3, 21)});
         case 19: fh.seq = next; fh.version = over; fh.msgType = otyp; return ref::buildFrame(fh, {seg(0, 2, 22), seg(ref::SEG_LAST, 2, 23)});
         default:
@@ -707,6 +712,7 @@ static std::vector<int> sharpAlphabet()
             a.push_back(ep * SYM_PER_EP + k);
     a.push_back(0 * SYM_PER_EP + 21);   // truncated TECMP-like buffer carrying A's ids
     a.push_back(0 * SYM_PER_EP + 22);   // zero-length last segment of A
+    a.push_back(0 * SYM_PER_EP + 25);   // last segment of A fitting a default-constructed entry
     for (int i = 0; i < ND; ++i)
         a.push_back(3 * SYM_PER_EP + i);
     return a;
@@ -891,7 +897,10 @@ static void fanOut(W& w, char oracle, int n, int order)
     auto feed = [&](int i, bool last, int pos) {
         Bytes f = frame(i, last);
         std::string where = fmt("frame %d (%s segment of endpoint #%d of %d)", pos, last ? "last" : "first", i, n);
-        auto got = step(w, s, f, false, -1, oracle == 'S' ? 'n' : oracle, where);
+        // the pending-table dump costs O(N^2) per call (sorted copy of the whole table): above 1100 endpoints the invariant is
+        // evaluated at 48 (above 5000 endpoints: 12) evenly spaced positions and behind the last frame instead of behind every frame
+        const bool judgeHere = oracle != 'P' || n <= 1100 || pos % std::max(1, 2 * n / (n <= 5000 ? 48 : 12)) == 0 || pos == 2 * n - 1;
+        auto got = step(w, s, f, false, -1, oracle == 'S' || !judgeHere ? 'n' : oracle, where);
         if (oracle == 'S')
         {
             auto sg = decodeCopy(w, solo[i], f, false);
@@ -1664,7 +1673,7 @@ int main(int argc, char** argv)
             run.rule = "on every path of the C05 interleaving exploration and of the C17 symbol tree/BFS the shared real Decoder is compared, frame by "
                        "frame, with a solo real Decoder per endpoint that is fed only that endpoint's frames; distinct = distinct (state, delivery) outcomes";
         else
-            run.rule = "74-symbol state-relative alphabet (per endpoint: U, UU, F, F+trailing@65535, F v2/status@32767, I/L correct, I/L counter+2, L wrong "
+            run.rule = "state-relative alphabet (per endpoint: U, UU, F, F+trailing@65535, F v2/status@32767, I/L correct, I/L counter+2, L wrong "
                        "version, L wrong type, I+trailing, payload-type 0, error flag, overrunning length, header-only, [U][F], [U][I], [U][L], partial header, header + 1 byte, truncated TECMP-like buffer carrying the endpoint's ids; plus "
                        "5-byte buffer, nullptr, TECMP frame): unmerged tree of copied real Decoders + BFS merged on (model state, verifPending dump); "
                        "invariant after every transition; distinct = distinct merged states";
